@@ -34,6 +34,7 @@ import (
 	"context"
 	"errors"
 	"fmt"
+	"os"
 	"runtime"
 	"sort"
 	"strings"
@@ -62,6 +63,9 @@ import (
 // it, the generator does not let a Submit of a stage happen on a done context / a stopped pool
 // (everything else - done contexts while tasks wait in the queue or run - is still generated).
 const sigRejectedTask = "C19/pool-rejects-stage-task-silently"
+
+// qDebug prints the state of a case whose script was abandoned because a guard expired.
+var qDebug = os.Getenv("C19Q_DEBUG") != ""
 
 const (
 	qStepGuard  = 3 * time.Second
@@ -107,6 +111,8 @@ type qSpec struct {
 	CtxKind []string // per pipeline: cancel | deadline | parent
 	Width   []int    // per pool
 	Script  []qAction
+	// Force (regression tests only): the script is executed as written even while the finding is listed
+	Force bool
 }
 
 func (s *qSpec) canon() string {
@@ -326,16 +332,18 @@ func (r *qRun) submit(id int, ctx context.Context, task *concurrent.Task) {
 	}
 	if n.PauseSubmit && !r.draining && !(host >= 0 && r.pools[host].stopInit) {
 		r.submitPaused[id] = true
+		r.classes["submit-held-back-at-entry"] = true
 		r.event("SP%d", id)
 		r.cond.Broadcast()
 		for r.submitPaused[id] {
 			r.cond.Wait()
 		}
 	}
-	r.submitBlocked[id] = !pl.stopInit && r.queued(n.Pool) >= qCapacity && r.parked(n.Pool) >= pl.width
+	r.submitBlocked[id] = !pl.stopInit && r.queued(n.Pool) >= qCapacity
 	doneBefore := ctx.Err() != nil || pl.real.Stopped()
 	r.inSubmit[id] = true
 	if r.submitBlocked[id] {
+		r.classes["submit-blocked-on-full-queue"] = true
 		r.event("SB%d", id)
 	} else {
 		r.event("S%d", id)
@@ -387,10 +395,11 @@ func (r *qRun) queuedWork(p int) int {
 	return k
 }
 
-// blockedNow (r.mu held): the goroutine inside Submit of stage c cannot proceed: the queue was
-// full with every worker parked when it went in, and no task has left the queue since.
+// blockedNow (r.mu held): the goroutine inside Submit of stage c cannot proceed: the queue holds
+// qCapacity tasks the harness knows of (accepted, not yet begun). Exact whenever every worker is
+// parked (nothing is on its way from the queue to a worker then), which is when the harness acts.
 func (r *qRun) blockedNow(c int) bool {
-	return r.inSubmit[c] && r.submitBlocked[c] && r.queued(r.spec.Nodes[c].Pool) >= qCapacity
+	return r.inSubmit[c] && r.queued(r.spec.Nodes[c].Pool) >= qCapacity
 }
 
 // threadParked (r.mu held): the goroutine th (see threadOf) is held inside a Submit.
@@ -586,7 +595,9 @@ func (r *qRun) submitH(p int, kind string, gate chan struct{}, guard time.Durati
 		r.cond.Broadcast()
 		r.mu.Unlock()
 	}()
-	if !r.waitGuard(guard, func() bool { return h.submitted }) {
+	// (a blocker is not waited for: it counts as on its way until it has a worker, also while
+	// its Submit waits for room in a full queue)
+	if kind != "blk" && !r.waitGuard(guard, func() bool { return h.submitted }) {
 		return nil
 	}
 	return h
@@ -784,7 +795,7 @@ func (r *qRun) stageState(i int) string {
 // or pool p must not become done / stopped as long as a Submit of one of its stages can still
 // follow.
 func (r *qRun) knownForbidsDone(q, pool int) bool {
-	if !ev.Known(sigRejectedTask) {
+	if r.spec.Force || !ev.Known(sigRejectedTask) {
 		return false
 	}
 	model := r.spec.modelStarted()
@@ -1023,7 +1034,8 @@ func runQCase(spec *qSpec) (*qResult, error) {
 			p := a.Arg
 			r.mu.Lock()
 			pl := r.pools[p]
-			applicable := !pl.stopInit && r.parked(p) >= pl.width
+			// (not a pool whose workers submit into it: they would wait for room they have to make themselves)
+			applicable := !pl.stopInit && r.parked(p) >= pl.width && !spec.selfFeeding(p)
 			for i := range spec.Nodes {
 				if spec.Nodes[i].Async && spec.Nodes[i].Pool == p && r.uncertain[i] {
 					applicable = false
@@ -1132,9 +1144,33 @@ func runQCase(spec *qSpec) (*qResult, error) {
 		if ok = act(a); ok {
 			ok = r.settle()
 		}
+		if ok {
+			r.mu.Lock()
+			for i := range spec.Nodes {
+				if r.blockedNow(i) {
+					r.classes["submit-blocked-on-full-queue"] = true
+				}
+			}
+			r.mu.Unlock()
+		}
 	}
 	if !ok {
 		r.guardExpired = true
+		if qDebug {
+			r.mu.Lock()
+			fmt.Printf("GUARD EXPIRED case=%s\n events=%s\n", spec.canon(), strings.Join(r.seq, " "))
+			for p, pl := range r.pools {
+				fmt.Printf("  pool %d width %d parked %d queued %d stopInit %v stopDone %v\n", p, pl.width, r.parked(p), r.queued(p), pl.stopInit, pl.stopDone)
+				for _, h := range pl.tasks {
+					fmt.Printf("    %s sub=%v arr=%v rel=%v done=%v\n", h.kind, h.submitted, h.arrived, h.released, h.done)
+				}
+			}
+			for i := range spec.Nodes {
+				fmt.Printf("  stage %d state=%s inSubmit=%v blocked=%v paused=%v hCalls=%d hDepth=%d expectErr=%v arrived=%v released=%v\n", i, r.stageState(i), r.inSubmit[i], r.submitBlocked[i], r.submitPaused[i], r.hCalls[i], r.hDepth[i], r.hExpectErr[i], r.arrived[i], r.released[i])
+			}
+			fmt.Printf("  started=%v execDone=%v stable=%v\n", r.started, r.execDone, r.stable())
+			r.mu.Unlock()
+		}
 	}
 
 	// ---- end of the script: free everything, then barriers until nothing moves ----
@@ -1360,7 +1396,24 @@ func checkQOracle(spec *qSpec, res *qResult) []violation {
 
 // ---- generator ---------------------------------------------------------------------------------
 
-const qMaxNodes = 9 // per pipeline
+const (
+	qMaxNodes        = 9 // per pipeline
+	qMaxAsyncPerPool = 6
+)
+
+// selfFeeding: a worker of pool p submits stages into pool p (a stage of p has a pooled child or
+// a pooled descendant below inline stages in p).
+func (s *qSpec) selfFeeding(p int) bool {
+	for c := range s.Nodes {
+		if !s.Nodes[c].Async || s.Nodes[c].Pool != p {
+			continue
+		}
+		if th := s.threadOf(c); th >= 0 && s.Nodes[th].Pool == p {
+			return true
+		}
+	}
+	return false
+}
 
 func genQSpec(t *rapid.T) *qSpec {
 	s := &qSpec{}
@@ -1377,7 +1430,7 @@ func genQSpec(t *rapid.T) *qSpec {
 		s.CtxKind = append(s.CtxKind, rapid.SampledFrom([]string{"cancel", "cancel", "deadline", "parent"}).Draw(t, "ctxKind"))
 		// 0 free mix; 1 production leaf shape (sync root, async below); 2 async stages with
 		// inline stages below (nothing is submitted once the first async layer is queued); 3 all async
-		shape := rapid.SampledFrom([]int{0, 0, 1, 1, 1, 2, 2, 3}).Draw(t, "shape")
+		shape := rapid.SampledFrom([]int{0, 0, 1, 1, 1, 1, 2, 2, 2, 3}).Draw(t, "shape")
 		depth := rapid.SampledFrom([]int{1, 2, 2, 2, 3, 3}).Draw(t, "depth")
 		allowPanic := rapid.SampledFrom([]bool{false, false, true}).Draw(t, "allowPanic")
 		first := len(s.Nodes)
@@ -1441,9 +1494,19 @@ func genQSpec(t *rapid.T) *qSpec {
 		}
 		s.Roots = append(s.Roots, build(-1, 1))
 	}
+	// At most qMaxAsyncPerPool pooled stages per pool: together with the blockers that wait for a
+	// worker (<= width) the queue of a pool (qCapacity) never fills up by itself, so no worker
+	// is ever blocked inside a Submit into its own pool (a dead-lock of the pool that has
+	// nothing to do with the property). A queue is full only where the script fills it.
+	perPool := map[int]int{}
 	var asyncIDs []int
 	for i := range s.Nodes {
-		if s.Nodes[i].Async {
+		n := &s.Nodes[i]
+		if n.Async {
+			if perPool[n.Pool]++; perPool[n.Pool] > qMaxAsyncPerPool {
+				n.Async, n.Gate, n.PauseSubmit, n.Pool = false, false, false, 0
+				continue
+			}
 			asyncIDs = append(asyncIDs, i)
 		}
 	}
@@ -1465,8 +1528,13 @@ func genQSpec(t *rapid.T) *qSpec {
 			Pref: rapid.SampledFrom([]string{"blk", "blk", "blk", "stage", "stage", "submit", "any", "any"}).Draw(t, "relPref"),
 			Arg:  rapid.SampledFrom(percent[:12]).Draw(t, "relArg")})
 	}
+	// (mostly close to the start of the pipelines: that is where tasks wait in the queues)
 	insert := func(a qAction, from int) {
-		pos := from + rapid.SampledFrom(percent[:len(script)-from+1]).Draw(t, "position")
+		span := len(script) - from + 1
+		if span > 4 && rapid.SampledFrom(percent[:3]).Draw(t, "early") > 0 {
+			span = 4
+		}
+		pos := from + rapid.SampledFrom(percent[:span]).Draw(t, "position")
 		script = append(script[:pos], append([]qAction{a}, script[pos:]...)...)
 	}
 	extra := rapid.SampledFrom([]string{"", "", "", "", "stop", "fill", "fill"}).Draw(t, "extra")
@@ -1474,7 +1542,22 @@ func genQSpec(t *rapid.T) *qSpec {
 	case "stop":
 		insert(qAction{Kind: "stop", Arg: rapid.SampledFrom(percent[:nPools]).Draw(t, "stopPool")}, 0)
 	case "fill":
-		insert(qAction{Kind: "fill", Arg: rapid.SampledFrom(percent[:nPools]).Draw(t, "fillPool")}, 0)
+		// a queue is worth filling where a Submit follows: a pool that has stages, before (or
+		// right after) the pipelines start
+		var used []int
+		for p := 0; p < nPools; p++ {
+			if perPool[p] > 0 {
+				used = append(used, p)
+			}
+		}
+		if len(used) > 0 {
+			a := qAction{Kind: "fill", Arg: rapid.SampledFrom(used).Draw(t, "fillPool")}
+			pos := rapid.SampledFrom(percent[:nq+2]).Draw(t, "fillPosition")
+			if pos > len(script) {
+				pos = len(script)
+			}
+			script = append(script[:pos], append([]qAction{a}, script[pos:]...)...)
+		}
 	}
 	for q := 0; q < nq; q++ {
 		// most contexts become done; mostly after the pipeline was started
